@@ -97,7 +97,31 @@ fn tcp_out(part: &str, scn: &Scn, minimise_it: bool) -> ScenarioOut {
         "max_bytes_beyond_delivered_ack": o.mon.max_inflight,
         "outcome": outcome_json(&o, 25, 15)}));
     let cs = complaints(&o);
-    if let Some((class, detail)) = cs.first() {
+    // complaints whose class carries an `@root-cause` tag were identified from
+    // the wire as one specific known defect: their signature is that tag,
+    // whatever the scenario. Every other class is reported with its minimised
+    // scenario. One violation per distinct class and run.
+    let mut seen: Vec<&str> = vec![];
+    let mut untagged_done = false;
+    for (class, detail) in cs.iter() {
+        if seen.contains(&class.as_str()) {
+            continue;
+        }
+        seen.push(class.as_str());
+        if class.contains('@') {
+            out.count(&format!("runs_hitting_known.{class}"), 1);
+            out.violate(
+                class,
+                format!("{PROP}|{class}"),
+                format!("{class}: {detail} — scenario {}", scn.canon()),
+                json!({"part": part, "scn": explicit_of(scn, &o).to_json(), "outcome": outcome_json(&o, 60, 40)}),
+            );
+            continue;
+        }
+        if untagged_done {
+            continue;
+        }
+        untagged_done = true;
         let ex = if matches!(scn.sched, Sched::Explicit(_)) { scn.clone() } else { explicit_of(scn, &o) };
         let class2 = class.clone();
         let fails = move |s: &Scn| complaints(&run_scn(s, ROUND_CAP)).iter().any(|(c, _)| *c == class2);
@@ -177,6 +201,30 @@ pub fn directed() -> Vec<(&'static str, Scn)> {
                 d(500, vec![100], vec![30], true, 1),
                 d(300, vec![300], vec![300], false, 0),
             ),
+        ),
+        // a reordered ACK: {ack=502, window=499} is overtaken by {ack=1001,
+        // window=0} and delivered after it; the sender must keep following the
+        // peer's newest advertisement (hunted report C16-1)
+        (
+            "stale-ack-overtaken",
+            Scn {
+                cfg: Cfg { recv_cap: 1000, send_cap: 8000, ..Cfg::default() },
+                c2s: DirSpec {
+                    total: 3000,
+                    wchunks: vec![1, 500, 499, 2000],
+                    rbufs: vec![4096],
+                    read_pause: 40,
+                    write_pause: 2,
+                    ..DirSpec::default()
+                },
+                s2c: DirSpec { total: 0, rbufs: vec![16], write_delay: 100, ..DirSpec::default() },
+                sched: Sched::Explicit(vec![
+                    Fault::parse("s2c:ACK#1:hold3").unwrap(),
+                    Fault::parse("s2c:ACK#3:hold5").unwrap(),
+                ]),
+                order: Order::Emission,
+                latency: 0,
+            },
         ),
         // large transfer, default caps, MSS-sized segments exactly
         (
@@ -504,9 +552,9 @@ pub fn run(ctx: &Ctx) -> ! {
         rep,
         Finish {
             level: "exploration",
-            rule: "directed cap/MTU scenarios + mixed-interface cases (every host has a loopback connection and one end of a cross-host connection of the same family, all writers start in the same round, both socket-table orders, loopback_mtu above and below mtu, v4/v6; MSS monitor keyed by the interface the segment leaves from) + seeded walks over mtu/loopback_mtu/send_buf_cap/recv_buf_cap (incl. caps below one MSS, MSS = 1, asymmetric caps), IPv4/IPv6, loopback (packets observed through the hook #3 tap) and cross-host paths with drop/hold/reorder schedules, writers probing try_write against netstat + C06's walks re-judged + UDP payloads around the MTU limit through all four send paths (send_to, try_send_to, and send / try_send on a connected socket), loopback and remote destinations; monitors: payload <= MSS on every segment, bytes beyond the highest ACK delivered to the sender <= last window delivered to it, netstat send_q/recv_q <= caps after every round, API-level conservation, try_write/partial-write/parked-write return values; a TCP run is non-trivial when data segments and window bounds were evaluated and some bound was tight (queue at its cap, zero window, segment of exactly MSS, in-flight equal to the window); distinct = distinct digest of packet trace + API trace",
+            rule: "directed cap/MTU scenarios + mixed-interface cases (every host has a loopback connection and one end of a cross-host connection of the same family, all writers start in the same round, both socket-table orders, loopback_mtu above and below mtu, v4/v6; MSS monitor keyed by the interface the segment leaves from) + seeded walks over mtu/loopback_mtu/send_buf_cap/recv_buf_cap (incl. caps below one MSS, MSS = 1, asymmetric caps), IPv4/IPv6, loopback (packets observed through the hook #3 tap) and cross-host paths with drop/hold/reorder schedules, writers probing try_write against netstat + C06's walks re-judged + UDP payloads around the MTU limit through all four send paths (send_to, try_send_to, and send / try_send on a connected socket), loopback and remote destinations; monitors: payload <= MSS on every segment, bytes beyond the highest ACK delivered to the sender <= window of the newest (in the peer's emission order) advertisement delivered to it, advertised right edge (ack + window) never moves left, netstat send_q/recv_q <= caps after every round, API-level conservation, try_write/partial-write/parked-write return values; a TCP run is non-trivial when data segments and window bounds were evaluated and some bound was tight (queue at its cap, zero window, segment of exactly MSS, in-flight equal to the window); distinct = distinct digest of packet trace + API trace",
             assumptions: vec![
-                "window clause: A = highest valid cumulative ACK the driver delivered to the sender, W = window of the last ACK-bearing non-RST segment (SYN/SYN-ACK before that) it delivered, evaluated per side once the wire shows that side established".into(),
+                "window clause: A = highest valid cumulative ACK the driver delivered to the sender, W = window of the newest ACK-bearing non-RST segment (in the peer's emission order; SYN/SYN-ACK before that) delivered to it, evaluated at emission per side once the wire shows that side established; an overtaken older ACK delivered later does not replace it".into(),
                 "netstat is trusted for send_q / recv_q; the API-level conservation checks use only write/read return values and wire ACK numbers".into(),
             ],
             min_distinct: ctx.pick(4_000, 40_000),
@@ -515,6 +563,7 @@ pub fn run(ctx: &Ctx) -> ! {
                 "segments_exactly_mss",
                 "window_bound_evaluations",
                 "window_bound_tight",
+                "right_edge_evaluations",
                 "zero_windows_advertised",
                 "netstat_entries_checked",
                 "send_q_at_cap",
